@@ -128,6 +128,10 @@ type Config struct {
 	// ClockEvent, when true, adds "advance the fake clock" as a scheduler choice
 	// even while tasks are runnable.
 	ClockEvent bool
+	// OnIdle, if set, is called by the scheduler when nothing is runnable, before
+	// the fake clock is advanced.  It may flip harness state (e.g. cancel a
+	// context the harness owns) and returns true if it did something.
+	OnIdle func(s *Sched) bool
 }
 
 // Result is what Run returns.
@@ -497,6 +501,10 @@ func (s *Sched) loop() {
 			// nothing to do: let fake time pass so that timers fire
 			if s.idle() {
 				return
+			}
+			if s.cfg.OnIdle != nil && s.cfg.OnIdle(s) {
+				s.note("idle-hook", 0)
+				continue
 			}
 			q := time.Millisecond
 			progressed := false
